@@ -1,8 +1,7 @@
 import BoolFn.Table
 import BoolFn.Parser
 /-! Model of `src/table/csv` (import, export) and of the cell logic of
-    `src/table/display_formatted.rs`, for the **simple CSV dialect** (no `"` and no `\r` in the
-    text): the `csv` crate then splits records on `\n`, skips empty lines, splits fields on `,`
+    `src/table/display_formatted.rs`, for the **simple CSV dialect** (no `"` in the text): the `csv` crate then splits records on `\n`, skips empty lines, splits fields on `,`
     and (with `flexible(false)`) rejects a record whose length differs from the first one.
     The spelling tables come from `Generated.Tables`. -/
 namespace BoolFn
@@ -47,12 +46,16 @@ def splitOnChar (c : Char) : List Char → List (List Char)
       | [] => [[x]]
       | g :: gs => (x :: g) :: gs
 
-/-- text is in the modelled dialect -/
-def simpleDialect (s : List Char) : Bool := s.all fun c => c != '"' && c != '\r'
+/-- text is in the modelled dialect: no quoting -/
+def simpleDialect (s : List Char) : Bool := s.all fun c => c != '"'
+
+/-- the `csv` reader's default record terminator (`Terminator::CRLF`) ends a record at `\n`, at a bare
+    `\r` and at `\r\n` (the empty record in between is skipped like every empty line) -/
+def crToLf (c : Char) : Char := if c == '\r' then '\n' else c
 
 /-- the records the `csv` reader yields in the simple dialect -/
 def csvRecords (s : List Char) : List (List String) :=
-  ((splitOnChar '\n' s).filter fun l => !l.isEmpty).map fun l => (splitOnChar ',' l).map String.ofList
+  ((splitOnChar '\n' (s.map crToLf)).filter fun l => !l.isEmpty).map fun l => (splitOnChar ',' l).map String.ofList
 
 /-- Rust `str::trim` -/
 def trimBoth (s : List Char) : List Char := (trimWs (trimWs s).reverse).reverse
